@@ -976,7 +976,7 @@ BUILTIN_CLASSES = {
 }
 
 SPEC_FUNCS = {"all_yields", "lp_solution", "newvar", "newvar_at", "emits", "emitted", "lp_binary", "lp_integer", "lp_lb", "lp_ub", "lp_name",
-              "call_result", "lp_inf", "lp_families", "lp_isvar", "family", "lp_objective", "lp_setobjective", "forall", "exists", "implies", "iff", "old", "fresh", "bigsum", "result", "ite", "is_none",
+              "call_result", "call_arg", "lp_inf", "lp_families", "lp_isvar", "family", "lp_objective", "lp_setobjective", "forall", "exists", "implies", "iff", "old", "fresh", "bigsum", "result", "ite", "is_none",
               "abstract", "seq_filter", "domain", "count", "typed", "sameobj", "opaque", "the"}
 
 ENUMS = {"CNConfigType": {"DEFAULT": 0, "LEFT_FUSION": 1, "RIGHT_FUSION": 2, "DELETION": 3, "CUSTOM": 4}}
